@@ -119,13 +119,35 @@ func (r *report) absorb(sum *runSummary, solver string) {
 
 // crossCheck compares verdicts of a second solver with the primary ones.
 func (r *report) crossCheck(s2 *runSummary, solver string) {
-	prim := map[string]sym.ObStatus{}
-	key := func(j string, i int, l string) string { return fmt.Sprintf("%s#%d#%s", j, i, l) }
-	for _, jr := range r.sum.results {
-		for i, ob := range jr.Obligations {
-			prim[key(jr.Job.ID, i, ob.Label)] = ob.Status
+	// Verdicts are compared per (job, obligation label): the number and order of paths may differ
+	// between back ends (a feasibility query one solver decides and the other does not keeps or drops
+	// a path), so obligations are not matched by position. Per label the worst status counts:
+	// violated > known > inconclusive > held (discharged by a solver or closed by the simplifier).
+	rank := func(s sym.ObStatus) int {
+		switch s {
+		case sym.ObViolated:
+			return 3
+		case sym.ObKnown:
+			return 2
+		case sym.ObInconclusive:
+			return 1
 		}
+		return 0
 	}
+	names := []string{"held", "inconclusive", "known", "violated"}
+	worst := func(results []*sym.JobResult) map[string]int {
+		m := map[string]int{}
+		for _, jr := range results {
+			for _, ob := range jr.Obligations {
+				k := jr.Job.ID + "/" + ob.Label
+				if v, ok := m[k]; !ok || rank(ob.Status) > v {
+					m[k] = rank(ob.Status)
+				}
+			}
+		}
+		return m
+	}
+	prim := worst(r.sum.results)
 	for _, f := range s2.fatal {
 		r.incon = append(r.incon, solver+" fatal: "+f)
 	}
@@ -133,17 +155,36 @@ func (r *report) crossCheck(s2 *runSummary, solver string) {
 		if jr.Inconclusive != "" {
 			r.incon = append(r.incon, solver+": "+jr.Job.ID+": "+jr.Inconclusive)
 		}
-		for i, ob := range jr.Obligations {
-			p, ok := prim[key(jr.Job.ID, i, ob.Label)]
-			r.crossChecked++
-			if !ok || p != ob.Status {
-				if ob.Status == sym.ObInconclusive {
-					r.confNotes = append(r.confNotes, fmt.Sprintf("%s could not decide %s/%s (%s); primary verdict %s kept", solver, jr.Job.ID, ob.Label, ob.Note, p))
-					continue
-				}
-				r.cross = append(r.cross, fmt.Sprintf("%s/%s: %s=%s %s=%s", jr.Job.ID, ob.Label, r.pd.solver(), p, solver, ob.Status))
-			}
+	}
+	sec := worst(s2.results)
+	var keys []string
+	for k := range sec {
+		keys = append(keys, k)
+	}
+	sort.Strings(keys)
+	for _, k := range keys {
+		r.crossChecked++
+		p, ok := prim[k]
+		v := sec[k]
+		if ok && p == v {
+			continue
 		}
+		if v == 1 {
+			pn := "absent"
+			if ok {
+				pn = names[p]
+			}
+			r.confNotes = append(r.confNotes, fmt.Sprintf("%s could not decide %s; primary verdict %s kept", solver, k, pn))
+			continue
+		}
+		if !ok && v == 0 {
+			continue // an obligation on a path only this back end kept, and it holds there
+		}
+		pn := "absent"
+		if ok {
+			pn = names[p]
+		}
+		r.cross = append(r.cross, fmt.Sprintf("%s: %s=%s %s=%s", k, r.pd.solver(), pn, solver, names[v]))
 	}
 	r.sum.solver.Queries += s2.solver.Queries
 	r.sum.solver.SolverSec += s2.solver.SolverSec
